@@ -84,6 +84,11 @@ fn gen_tl_case(r: &mut Xo, prop: u8) -> SimCase {
         }
         c.fracs = [0.0; 4];
     }
+    // the internal timer ignores the integration's trigger delay (only action timers are shifted by it):
+    // some C18 cases run with an integration whose only non-zero delay is a constant trigger delay
+    if prop == 18 && r.chance(1, 6) {
+        c.trigger_delay_us = *r.pick(&[1u64, 7, 1000, 2500]);
+    }
     c
 }
 
@@ -98,6 +103,9 @@ impl Prop for SimTl {
     fn run_case(&mut self, cx: &CaseCx, out: &mut Out) {
         let mut r = xo(cx.seed);
         let c = gen_tl_case(&mut r, self.prop);
+        if c.trigger_delay_us > 0 {
+            out.bump("cases_with_an_integration_trigger_delay");
+        }
         let pid = format!("C{}", self.prop);
         out.evaluations += 1;
         match run_sim(&c) {
